@@ -135,7 +135,8 @@ OTHER_PRIM = {"int8": "int16", "uint8": "uint16", "int16": "int32", "uint16": "u
 def random_wire_edit(pkg, rng):
     """A copy of pkg in which one definition that some protocol reaches - chosen at random among all of them, however
     it is reached - differs in one detail that the schema has to show: the type, name or order of record fields, an
-    added field, an enum symbol or value, the target of an alias.  Returns (copy, description) or (None, None)."""
+    added field, an enum symbol or value, the target of an alias.  Returns (copy, description) or (None, None); the
+    description starts with "<namespace>.<definition>:"."""
     b = copy.deepcopy(pkg)
     protos = [d for d in b.defs() if isinstance(d, M.Protocol)]
     proto = rng.choice(protos)
@@ -283,7 +284,12 @@ def run_twin(task, rng, pkg_b, edit, a_streams, want_cpp, ybin, root, quick, sta
                 stats["baseline_unreadable(skipped)"] = stats.get("baseline_unreadable(skipped)", 0) + 1
                 continue
             jobs = []   # (what, class, fmt, payload)
-            if proto.name in a_streams:
+            touched = True
+            if only_misdelivery:
+                # the random twin differs in one definition: only protocols that reach it have a different schema
+                ens, ename = edit[len("random: "):].split(":", 1)[0].split(".", 1)
+                touched = any(o.namespace == ens and d_.name == ename for o, d_ in reachable_defs(pkg_b, proto))
+            if proto.name in a_streams and touched:
                 # every protocol carries the steering steps, so A and B always differ in how some value is
                 # encoded; if their schema texts are nevertheless equal the reader has no way to refuse, and
                 # that is exactly "decoding a foreign stream as if it were its own"
@@ -368,8 +374,120 @@ def run_twin(task, rng, pkg_b, edit, a_streams, want_cpp, ybin, root, quick, sta
         model.close()
 
 
+def versioned_task(task, ybin, root):
+    """Readers that have registered previous versions (C++ only; the Python back end registers none).  The newest
+    package of a seeded version chain is generated for C++ and Python.  Its C++ reader must accept a stream that
+    carries a registered previous version's schema (control) and must refuse (a) the stream of a twin of that previous
+    version - one random schema-relevant edit apart, and neither the current nor any registered schema - and (b) the
+    previous version's stream with a bit of its schema text flipped.  The Python reader of the newest package must
+    refuse the previous version's stream outright."""
+    from gen import edits as E
+    import importlib
+    C05 = importlib.import_module("checks.C05")
+    seed, i, quick = task["seed"], task["i"], task["tier"] == "quick"
+    rng = M.derive(seed, "c15v", i)
+    newest = C05.make_chain(rng.fork("chain"))
+    stats, viols, cases = {"models_with_cpp": 1, "versioned_models": 1}, [], []
+    model, old_models = C05.open_models(newest, ybin, root)     # raises GeneratorRejected if yardl rejects the chain
+    try:
+        try:
+            cm = C.CppModel(model.dir)
+        except C.GeneratedCodeDoesNotCompile:
+            stats["generated_cpp_did_not_compile(discarded)"] = 1
+            return {"stats": stats, "violations": [], "cases": [], "samples": []}
+        ns = newest.namespace
+        registered = {}          # protocol -> set of schema texts the newest reader knows
+        for proto in model.protocols():
+            registered[proto.name] = {model.schema(proto)} | {sch[proto.name] for (_, _, sch) in old_models.values() if proto.name in sch}
+        jobs = []                # (proto, what, class, payload, is_control)
+        for label, (old_pkg, old_env, old_schemas) in old_models.items():
+            r = rng.fork("old", label)
+            codec_old = R.Codec(old_env)
+            # a twin of the old version
+            twin_pkg, twin_edit = random_wire_edit(old_pkg, r.fork("twin"))
+            twin_schemas, twin_env = {}, None
+            if twin_pkg is not None:
+                tp = copy.deepcopy(twin_pkg)
+                tp.dirname, tp.versions = "pkg", []
+                try:
+                    tm = P.PyModel(tp, ybin, root)
+                    try:
+                        twin_schemas = {p.name: tm.schema(p) for p in tm.protocols()}
+                    finally:
+                        tm.close()
+                    twin_env = M.Env(twin_pkg)
+                except P.GeneratorRejected:
+                    stats["random_twin_rejected(discarded)"] = stats.get("random_twin_rejected(discarded)", 0) + 1
+            for proto in model.protocols():
+                old_proto = old_pkg.find(proto.name)
+                if old_proto is None or proto.name not in old_schemas:
+                    continue
+                vals = sw.gen_values(old_env, ns, old_proto, r.fork("v", proto.name), finite=True, items=(1, 3))
+                data = codec_old.encode_stream(old_proto, ns, old_schemas[proto.name], vals)
+                jobs.append((proto, "stream of registered previous version %s" % label, "control_previous_version", data, True))
+                if old_schemas[proto.name] != model.schema(proto):
+                    jobs.append((proto, "python reader given the stream of previous version %s" % label, "python_previous_version", data, False))
+                sb = old_schemas[proto.name].encode()
+                hs = 9 + uvlen(len(sb))
+                for _ in range(3 if quick else 12):
+                    pos, bit = r.randint(hs, hs + len(sb) - 1), r.randint(0, 7)
+                    mm = bytearray(data); mm[pos] ^= 1 << bit
+                    jobs.append((proto, "previous version %s: flip bit %d of schema byte %d" % (label, bit, pos - hs), "flip_previous_schema_text", bytes(mm), False))
+                tproto = twin_pkg.find(proto.name) if twin_pkg is not None else None
+                if tproto is not None and proto.name in twin_schemas and twin_schemas[proto.name] not in registered[proto.name]:
+                    tvals = sw.gen_values(twin_env, ns, tproto, r.fork("tv", proto.name), finite=True, items=(1, 3))
+                    tdata = R.Codec(twin_env).encode_stream(tproto, ns, twin_schemas[proto.name], tvals)
+                    jobs.append((proto, "stream of a twin of previous version %s (%s)" % (label, twin_edit), "misdelivery_near_previous_version", tdata, False))
+        # python: the newest reader registers no previous version
+        for proto, what, cls, payload, ctl in jobs:
+            if cls != "python_previous_version":
+                continue
+            stats["runs"] = stats.get("runs", 0) + 1
+            stats[cls] = stats.get(cls, 0) + 1
+            why = py_refuses(model, proto, "binary", io.BytesIO(payload))
+            if why:
+                viols.append(({"class": "foreign_or_corrupt_stream_accepted", "lang": "python", "format": "binary", "fault": cls}, doc(model, proto, task, what, why, payload.hex(), "binary", "python")))
+        cj = [j for j in jobs if j[2] != "python_previous_version"]
+        rng.fork("order").shuffle(cj)
+        runs = [{"proto": p.name, "op": "relay", "in_fmt": "binary", "out_fmt": "ndjson", "input": k} for k, (p, _, _, _, _) in enumerate(cj)]
+        results = cm.run_plan([j[3] for j in cj], runs, timeout=300) if cj else []
+        ctrl_ok = {}
+        for res, (p, what, cls, pb, ctl) in zip(results, cj):
+            if ctl:
+                ok = bool(res is not None and not res.get("crashed") and res.get("ok"))
+                ctrl_ok[p.name] = ctrl_ok.get(p.name, True) and ok
+                stats["previous_version_stream_accepted(control)" if ok else "previous_version_stream_not_readable(C05's business, skipped)"] = \
+                    stats.get("previous_version_stream_accepted(control)" if ok else "previous_version_stream_not_readable(C05's business, skipped)", 0) + 1
+        for k, (res, (p, what, cls, pb, ctl)) in enumerate(zip(results, cj)):
+            if ctl or not ctrl_ok.get(p.name):
+                continue
+            stats["runs"] = stats.get("runs", 0) + 1
+            stats["cpp_" + cls] = stats.get("cpp_" + cls, 0) + 1
+            if res is None:
+                continue
+            why = cpp_accepted(res)
+            if why:
+                d = doc(model, p, task, what, why, pb.hex(), "binary", "cpp")
+                d["versioned"] = True
+                viols.append(({"class": "foreign_or_corrupt_stream_accepted", "lang": "cpp", "format": "binary", "fault": cls, "needs_earlier_readers": False}, d))
+        for proto in model.protocols():
+            cases.append((["c15v", i, proto.name], True))
+    finally:
+        model.close()
+    seen, out = set(), []
+    for rec, d in viols:
+        k = (rec["lang"], rec["format"], rec["fault"])
+        if k not in seen:
+            seen.add(k)
+            out.append((rec, d))
+    return {"stats": stats, "violations": out[:6], "cases": cases,
+            "samples": [{"model_index": i, "versioned": True, "versions_as_listed": [l for l, _ in newest.versions]}]}
+
+
 def model_task(task, ybin, root):
     seed, i, quick = task["seed"], task["i"], task["tier"] == "quick"
+    if i % 4 == 3:
+        return versioned_task(task, ybin, root)
     rng = M.derive(seed, "c15", i)
     want_cpp = (i % 5 == 0) if quick else (i % 2 == 0)
     cfg = M.GenConfig.swarm(rng.fork("cfg"))
@@ -413,7 +531,7 @@ def model_task(task, ybin, root):
 def replay_doc(d, ybin, root):
     pkg = sw.unpack_pkg(d["pkg"])
     want_cpp = d["lang"] == "cpp"
-    model = P.PyModel(pkg, ybin, root, want_cpp=want_cpp, cpp_opts=C.CPP_OPTS)
+    model = P.PyModel(pkg, ybin, root, want_cpp=want_cpp or bool(pkg.versions), cpp_opts=C.CPP_OPTS)
     try:
         proto = [p for p in model.protocols() if p.name == d["protocol"]][0]
         payload = bytes.fromhex(d["payload_hex"])
@@ -434,7 +552,7 @@ def replay_doc(d, ybin, root):
 
 
 def main():
-    runner.run(PROP, "fault_enumeration", "checks.C15", quick_models=30, thorough_budget=1500,
+    runner.run(PROP, "fault_enumeration", "checks.C15", quick_models=32, max_reject=0.4, thorough_budget=1500,
                rule=("one case = one protocol of a generated model B x the enumerated fault set: the stream of the near-identical protocol A (B differs from A by exactly one "
                      "wire-relevant edit: field type, order of two same-typed fields, enum base, enum value, fixed-vector length, union case order, field name, optionality, map "
                      "value type), the streams of the other protocols of B, every single-bit flip of magic / version word / schema-length varint plus seeded byte substitutions "
@@ -446,7 +564,8 @@ def main():
                assumptions=["a corruption after which the header is still the reader's own header by the documented format (NDJSON line parsing to the same JSON) is benign and skipped"],
                replay_fn=replay_doc, quick_budget=140,
                fault_keys=("misdelivery_near_identical", "misdelivery_unrelated", "misdelivery_sibling_protocol", "flip_magic", "flip_version", "flip_schema_length", "subst_magic", "subst_version",
-                           "subst_schema_length", "flip_schema_text", "schema_prefix", "schema_extended", "flip_ndjson_header", "ndjson_version"))
+                           "subst_schema_length", "flip_schema_text", "schema_prefix", "schema_extended", "flip_ndjson_header", "ndjson_version",
+                           "cpp_misdelivery_near_previous_version", "cpp_flip_previous_schema_text", "python_previous_version"))
 
 
 if __name__ == "__main__":
